@@ -3729,7 +3729,11 @@ impl SctpInner {
         // Mark all chunks of abandoned messages in one pass.
         if !abandon_set.is_empty() {
             for record in sent_queue.values_mut() {
-                if abandon_set.contains(&(record.stream_id, record.ssn)) {
+                // Only chunks that are themselves partially reliable: the channel's DCEP
+                // OPEN / ACK travel on the same stream with SSN 0 and must stay reliable.
+                if (record.max_retransmits.is_some() || record.expiry.is_some())
+                    && abandon_set.contains(&(record.stream_id, record.ssn))
+                {
                     record.abandoned = true;
                     record.needs_retransmit = false;
                     if record.in_flight {
